@@ -25,6 +25,30 @@ from . import lift
 _tee_fns = [lambda x: None, lambda x: None]
 
 
+def _same_name_fns():
+    """two different functions / properties that carry the SAME __name__ and __qualname__ (a closure factory, a class
+    statement executed twice, lambdas): what tells them apart is the object, not how it is called"""
+
+    def mk(k):
+        def f(x):
+            return isinstance(x, k)
+
+        return f
+
+    def mkcls(k):
+        class Host:
+            @property
+            def flag(self):
+                return isinstance(self, k)
+
+        return Host
+
+    return [mk(int), mk(str)], [property(lambda x: isinstance(x, int)), property(lambda x: isinstance(x, str))], [mkcls(int).flag, mkcls(str).flag]
+
+
+_SN_FNS, _SN_LAMBDA_PROPS, _SN_CLASS_PROPS = _same_name_fns()
+
+
 def atom_thunks():
     """(description, thunk) for every exported atom kind at two or three parameter choices."""
     T = []
@@ -91,6 +115,12 @@ def atom_thunks():
     add("property is_private", lambda: PropertyPredicate(getter=IPv4Address.is_private))
     add("property is_global", lambda: PropertyPredicate(getter=IPv4Address.is_global))
     for i in range(2):
+        add(f"property <lambda> #{i}", lambda i=i: PropertyPredicate(getter=_SN_LAMBDA_PROPS[i]))
+        add(f"property Host.flag #{i}", lambda i=i: PropertyPredicate(getter=_SN_CLASS_PROPS[i]))
+        add(f"fn same-name #{i}", lambda i=i: fn_p(_SN_FNS[i]))
+        add(f"tee same-name #{i}", lambda i=i: tee_p(_SN_FNS[i]))
+        add(f"comp same-name #{i} truthy", lambda i=i: comp_p(_SN_FNS[i], is_truthy_p))
+    for i in range(2):
         add(f"comp fn{i} eq 1", lambda i=i: comp_p(lift.FNS[i], eq_p(1)))
     add("comp fn0 eq 2", lambda: comp_p(lift.FNS[0], eq_p(2)))
     add("tuple_of (int,str)", lambda: is_tuple_of_p(is_int_p, is_str_p))
@@ -117,6 +147,25 @@ def nested_not_thunks(atoms):
     for (d1, a), (d2, b) in zip(atoms, atoms[1:]):
         out.append((f"~(~({d1}) & ({d2}))", lambda a=a, b=b: ~(~a() & b())))
         out.append((f"~~(({d1}) | ({d2}))", lambda a=a, b=b: ~~(a() | b())))
+    return out
+
+
+def chain_thunks():
+    """same-operator chains with repeated operands in every grouping: (x . y) . z, x . (y . z), (x . y) . (z . w) over three
+    atoms that answer differently -- equality must pair operands as they stand (a chain compared as a set of operands, or up to
+    re-association, equates xor chains of different parity)"""
+    A = [("ge 2", lambda: ge_p(2)), ("eq 1", lambda: eq_p(1)), ("is_str", lambda: is_instance_p(str))]
+    import operator
+
+    out = []
+    for sym, op in (("&", operator.and_), ("|", operator.or_), ("^", operator.xor)):
+        for (d1, a) in A:
+            for (d2, b) in A:
+                for (d3, c) in A:
+                    out.append((f"(({d1}) {sym} ({d2})) {sym} ({d3})", lambda a=a, b=b, c=c, op=op: op(op(a(), b()), c())))
+                    out.append((f"({d1}) {sym} (({d2}) {sym} ({d3}))", lambda a=a, b=b, c=c, op=op: op(a(), op(b(), c()))))
+        for (d1, a), (d2, b), (d3, c), (d4, d) in [(A[0], A[1], A[0], A[2]), (A[0], A[1], A[1], A[2]), (A[0], A[0], A[1], A[2]), (A[0], A[1], A[2], A[2]), (A[1], A[0], A[2], A[0]), (A[0], A[1], A[0], A[1]), (A[0], A[1], A[1], A[0]), (A[0], A[0], A[1], A[1])]:
+            out.append((f"(({d1}) {sym} ({d2})) {sym} (({d3}) {sym} ({d4}))", lambda a=a, b=b, c=c, d=d, op=op: op(op(a(), b()), op(c(), d()))))
     return out
 
 
